@@ -156,6 +156,15 @@ def run(ctx):
                     b[pos + 8] = 0xA9          # two bytes one word apart: lead without trail, trail without lead
                     ops2.append(f"utf8.isutf8 {hx(bytes(b))} {al}")
     ops2 += [f"utf8.isutf8 {hx(s)} {rng.randrange(8)}" for s in strs[:3000] if s]
+    # a code point whose VALUE is special inside the decoder (U+FFFD is its error marker; U+0000, U+FFFE/F, U+10FFFF, U+FEFF)
+    # followed / preceded by each kind of ill-formed sequence
+    specials = [0xFFFD, 0, 0xFFFE, 0xFFFF, 0x10FFFF, 0xFEFF, 0xD7FF, 0xE000]
+    junk = [b"\xff", b"\x80", b"\xc3", b"\xe2\x82", b"\xed\xa0\x80", b"\xe0\x80\x80", b"\xf4\x90\x80\x80", b"\xc0\xaf"]
+    for cp in specials:
+        c = chr(cp).encode("utf-8")
+        for j in junk:
+            for t in (c + j, c + b"ok " + j, b"x" + c + j + b"y", j + c, c + c + j, c, b"caf\xc3\xa9 " + c + b" " + j + b" tail"):
+                ops2.append(f"utf8.isutf8 {hx(t)} {rng.randrange(8)}")
     bad2, a2, b2 = pvlib.diff_streams(ctx, "utf8.isutf8", ops2)
     ctx.cov["isutf8_true"] = sum(1 for x in a2 if x == "true")
     ctx.cov["isutf8_false"] = sum(1 for x in a2 if x == "false")
@@ -163,6 +172,9 @@ def run(ctx):
     # 3. the tool: remove_invalid_utf8 keeps exactly the well-formed lines, unchanged
     lines = [s for s in strs if b"\n" not in s and not s.endswith(b"\r")][:5000]
     # single stray bytes in ASCII lines at every offset of the reader's buffer modulo 8 (padding lines shift the offset)
+    for cp in (0xFFFD, 0xFFFE, 0x10FFFF, 0xFEFF):
+        c = chr(cp).encode("utf-8")
+        lines += [c + b" then a stray byte \xff", b"x" + c + b"\x80", c + b"\xc3", c + b" fine", c]
     for i in range(600 if ctx.tier == "quick" else 6000):
         lines.append(b"p" * rng.randrange(0, 9))
         b = bytearray(asc[:rng.randrange(1, 40)])
